@@ -6,11 +6,10 @@ namespace GoLevel.Dur
 
 /-- `RunOK` when a journal other than the current one is removed after the commit -/
 theorem RunOK.rmJ {cfg : Cfg} {s : St} {d : Disk} (h : RunOK cfg s d) (j' : Job) (n : Nat) (hn : n ≠ s.jcur)
-    (hbc : j'.pc.beforeCommit = false) (hmfd : MfdOK { s with job := some j' } { d with journals := d.journals.erase n }) :
+    (hnc : ¬ FlushPending { s with job := some j' })
+    (hmfd : MfdOK { s with job := some j' } { d with journals := d.journals.erase n }) :
     RunOK cfg { s with job := some j' } { d with journals := d.journals.erase n } := by
   obtain ⟨r1, r2, r3, r4, r5, r6, r7, r8, r9⟩ := h
-  have hnc : ¬ NoCommitYet { s with job := some j' } := by
-    unfold NoCommitYet; simp [Holds', hbc]
   refine ⟨r1, ⟨hmfd, r2.2⟩, ?_, ?_, ⟨?_, r5.2⟩, r6, ?_, ?_, fun hc => by cases hc⟩
   · show Holds (lookup (d.journals.erase n) s.jcur) _
     rw [lookup_erase, if_neg (fun e => hn e.symm)]
@@ -86,7 +85,13 @@ theorem Inv.post_open {cfg : Cfg} {s : St} {d : Disk} (h : Inv cfg s d) {j : Job
     -- only a flush job has no edit, and it runs in the running phase
     have hk := hok.kind
     unfold JobKindOK at hk
-    rcases hok.kinds with hkk | hkk | hkk <;> rw [hkk] at hk <;> simp only at hk
+    rcases hok.kinds with hkk | hkk | hkk | hkk | hkk <;> rw [hkk] at hk <;> simp only at hk
+    rotate_right 2
+    · rw [he] at hk; exact absurd hk.2.2.2 (by simp)
+    · obtain ⟨_, _, _, _, hk⟩ := hk
+      rw [he] at hk
+      revert hk
+      cases s.tr <;> simp [Holds]
     · exact (h.run hk.1).mfd.2
     · obtain ⟨_, _, hk⟩ := hk
       rw [holds_iff] at hk
@@ -109,15 +114,27 @@ theorem Inv.post_open {cfg : Cfg} {s : St} {d : Disk} (h : Inv cfg s d) {j : Job
 theorem JobOK.post_next {cfg : Cfg} {s : St} {d d' : Disk} {j : Job} (h : JobOK cfg s d j) (hp : j.pc.post = true)
     (pc' : JPc) (hp' : pc'.post = true) (hcm : curManifest d' = curManifest d)
     (hmk : MkJournalOK { s with job := some { j with pc := pc' } } d' { j with pc := pc' })
-    (hrm : Holds (lastView cfg d') (RemovalsOK { s with job := some { j with pc := pc' } } d' { j with pc := pc' })) :
+    (hrm : Holds (lastView cfg d') (RemovalsOK { s with job := some { j with pc := pc' } } d' { j with pc := pc' }))
+    (hlg : ∀ v, lastView cfg d = some v → ∀ o ∈ j.outs, o.1 ∈ v.live → lookup d'.tables o.1 = lookup d.tables o.1) :
     JobOK cfg { s with job := some { j with pc := pc' } } d' { j with pc := pc' } := by
-  obtain ⟨h1, h2, h3, h4, h5, h6, h7, h8, h9, h10⟩ := h
+  obtain ⟨h1, h2, h3, h4, h5, h6, h7, h8, h9, h10, h11, h12⟩ := h
+  have hjb : j.pc.beforeCommit = false := by cases hpc : j.pc <;> rw [hpc] at hp <;> simp_all [JPc.post, JPc.beforeCommit]
   have hnb : pc'.beforeCommit = false := by cases pc' <;> simp_all [JPc.post, JPc.beforeCommit]
   have hlv : lastView cfg d' = lastView cfg d := by unfold lastView; rw [hcm]
-  refine ⟨h1, ?_, ?_, ⟨h4.1, fun hb => by rw [hnb] at hb; cases hb⟩, h5, ?_, ?_, hmk, hrm, fun _ => hp'⟩
+  refine ⟨h1, ?_, ?_, ⟨h4.1, fun hb => by rw [hnb] at hb; cases hb⟩, h5, ?_, ?_, hmk, hrm, fun _ => hp', ?_, ?_⟩
+  rotate_right 2
+  · exact Holds'.imp (o := j.edit) h11 (fun e he0 => he0.transport (j' := { j with pc := pc' }) rfl rfl (fun _ => rfl)
+      (fun hb => nomatch hnb.symm.trans hb) (fun hb => nomatch hnb.symm.trans hb)
+      (fun hb => nomatch hnb.symm.trans hb))
+  · intro _
+    have h12' := h12 hjb
+    rw [hlv]
+    rw [holds_iff] at h12' ⊢
+    obtain ⟨v, hv, h12'⟩ := h12'
+    exact ⟨v, hv, fun o ho => ⟨(h12' o ho).1, by rw [hlg v hv o ho (h12' o ho).1]; exact (h12' o ho).2⟩⟩
   · exact h2.transport rfl rfl rfl rfl rfl rfl rfl rfl rfl rfl rfl rfl (fun hb => by
       have : pc'.beforeCommit = true := hb
-      rw [hnb] at this; cases this)
+      rw [hnb] at this; cases this) rfl rfl (fun _ => rfl)
   · unfold JobManifestOK at h3 ⊢
     show match j.edit with
       | some e => JobManifest cfg _ d' e pc'
